@@ -392,13 +392,17 @@ def count(I, M):
     tab = I.path.ghost.setdefault("array_counts", {})
     if M.uid in tab:
         return tab[M.uid]
-    c = I.path.fresh(f"count_{M.uid}", "int")
+    known_notin = t[0] == "notin"
+    known_scatter = t[0] == "scatter" and t[1].term[0] == "full" and t[1].term[1] is True and t[3] is False
+    # a mask built any other way has NO counting fact here: its count is named countP_ so that a counter-model which only
+    # exploits that freedom is recognised as spurious (undecided), never reported as a refutation
+    c = I.path.fresh(f"count_{M.uid}" if (known_notin or known_scatter) else f"countP_{M.uid}", "int")
     I.path.assume(z3.And(c.t >= 0, c.t <= zint(M.n)))
     # not-in mask of k distinct in-range indices has n - k True entries (TRUSTED arithmetic of sets)
-    if t[0] == "notin":
+    if known_notin:
         I.path.assume(c.t == zint(M.n) - zint(t[1].n))
     # ones(n, bool) with k distinct in-range positions set to False has n - k True entries
-    if t[0] == "scatter" and t[1].term[0] == "full" and t[1].term[1] is True and t[3] is False:
+    if known_scatter:
         I.path.assume(c.t == zint(M.n) - zint(t[2].n))
     tab[M.uid] = c
     return c
